@@ -173,9 +173,9 @@ struct Engine {
     }
 
     void LoadState(const St& s) {
-        Machine::LoadApbp(m.apbp(0), s.d[0]);
-        Machine::LoadApbp(m.apbp(1), s.d[1]);
-        m.impl->icu.request.reset();
+        m.LoadApbp(m.apbp(0), s.d[0]);
+        m.LoadApbp(m.apbp(1), s.d[1]);
+        m.impl->icu.Acknowledge(0xFFFF);
         m.host_data_cb[0] = m.host_data_cb[1] = m.host_data_cb[2] = 0;
         m.host_sem_cb = 0;
         m.log.clear();
@@ -236,7 +236,7 @@ struct Engine {
         ++res.transitions;
         ++res.traces_validated;
         St got = SaveState();
-        u16 icu_req = (u16)m.impl->icu.request.to_ulong();
+        u16 icu_req = m.impl->icu.GetRequest();
         std::string bad;
         auto fail = [&](const std::string& what) {
             if (bad.empty())
